@@ -17,7 +17,7 @@ pub fn prop() -> Prop {
         ],
         subs: vec![
             Sub::enumerate("grid", grid),
-            Sub::tape("random", 10, 30_000, 1_000_000, random),
+            Sub::tape("random", 10, 200_000, 3_000_000, random),
         ],
     }
 }
